@@ -108,7 +108,7 @@ func Mutate(t *rapid.T, s string, others []string, frags []string) string {
 var Frags = map[string][]string{
 	"css": {"a", "b", "-", "--", "--x", "{", "}", "(", ")", "[", "]", ":", ";", ",", "@media", "@import", "@x", "@", "#", "#a", ".", "1", "1.", "1e", "1e+", "+", "%", "px", "u+", "U+1-", "u+??", "url(", "URL(", "url( ", ")", "\"", "'", "\\", "\\41 ", "\\\n", "\n", "\r\n", "\f", " ", "\t", "/*", "*/", "/", "<!--", "-->", "~=", "|=", "||", "|", "*", "*color", "!important", "!", ">", "+", "~", "=", "é", "\xc3", "\xf0\x9f", "\x00", "\x00\x00", "\x7f", "\x1f", "a:b", "a{b:c}", "@media x{", "a{*", "\\0", "$=",
 		"\xef\xbb\xbf", "\\6c\r", "ur\\6c\r(", "\\75\r(", "\\55\\52\\4c\r(x)", "\\26\r\n", "-\\\n", "-\\", "U+4??-1", "u+1?-a", "U+1-", "--f(", "(((((((("},
-	"html": {"<a", "<A", "<b c=d", "<script", "<SCRIPT>", "<style>", "<svg", "<math>", "<title>", "<textarea>", "<plaintext>", "<xmp>", "<iframe>", "<xml>", ">", "/>", "/", "</a>", "</script>", "</SCRIPT", "</svg>", "</math >", "</", "</ ", "</>", " b=c", " d='e'", " f=\"g\"", " h", "=", "'", "\"", "<!--", "-->", "--!>", "--", "<!DOCTYPE", "<!doctype html>", "<![CDATA[", "]]>", "<?", "?>", "<!", "<%", "%>", "{{", "}}", "text", " ", "\n", "\t", "\f", "\r", "\x00", "é", "\xc3", "<", "&amp;", "<script><!--", "<script>", "\\",
+	"html": {"<% a -%>\n", "-%>", "-%>\r\n", "<%", "%>", "<%= x %>", "<a", "<A", "<b c=d", "<script", "<SCRIPT>", "<style>", "<svg", "<math>", "<title>", "<textarea>", "<plaintext>", "<xmp>", "<iframe>", "<xml>", ">", "/>", "/", "</a>", "</script>", "</SCRIPT", "</svg>", "</math >", "</", "</ ", "</>", " b=c", " d='e'", " f=\"g\"", " h", "=", "'", "\"", "<!--", "-->", "--!>", "--", "<!DOCTYPE", "<!doctype html>", "<![CDATA[", "]]>", "<?", "?>", "<!", "<%", "%>", "{{", "}}", "text", " ", "\n", "\t", "\f", "\r", "\x00", "é", "\xc3", "<", "&amp;", "<script><!--", "<script>", "\\",
 		// regions with upper-case content glued to names, end tags whose name goes on, abrupt comments, nested and self-closing foreign elements
 		"</A{{", "{{ X }}", "</DIV{{.Foo}}>", "<%= Y %>", "<? Z ?>", "</B<%", "</svg:g>", "<svg/>", "<!-->", "<!--->", "<svg><svg>", "</textarea0>", "</script-x>", "<svg a='", "<math b=c/>", "<svg><!--", "<svg><![CDATA[", "--!>"},
 	"xml": {"<a", "<b:c", ">", "/>", "?>", "</a>", "</a", "</", " x='1'", " y=\"2\"", " z", "=", "'", "\"", "<!--", "-->", "--", "<![CDATA[", "]]>", "]]", "<?xml", "<?pi", "<?", "<!DOCTYPE", "<!DOCTYPE a [", "[", "]", "]>", "<!ENTITY", "<!", "text", " ", "\n", "\t", "\r", "\x00", "é", "\xc3", "<", "&amp;", "/", "?",
